@@ -13,7 +13,7 @@ RULE = ('models are generated as trees by the harness (recursive blocks, single-
         'get_children_of_type from the root and from inner objects (every contained object satisfying the selector exactly '
         'once, parents before children / after with children_first, pruning by random should_follow), get_parent_of_type = '
         'nearest ancestor. distinct = (tree shape, class variant); non-trivial = depth >= 3 and >= 10 objects')
-REQUIRED = {'models': 200, 'objects_checked': 3000, 'get_children_calls': 1000, 'falsy_objects': 50, 'pruned_traversals': 200,
+REQUIRED = {'user_classes_used_by_an_earlier_metamodel': 50, 'models': 200, 'objects_checked': 3000, 'get_children_calls': 1000, 'falsy_objects': 50, 'pruned_traversals': 200,
             'parent_of_type_calls': 1000, 'inner_roots': 200}
 
 GRAMMARS = {
@@ -148,6 +148,13 @@ def user_classes(variant):
 
 
 VARIANTS = ['none', 'plain', 'slots', 'falsy', 'eq']
+PRIME_GRAMMAR = '''
+Model: 'model' name=ID items*=Item;
+Item: Block | Leaf | Ref;
+Block: 'block' name=ID '{' items*=Item '}';
+Leaf: 'leaf' name=ID;
+Ref: 'ref' name=ID '->' target=[Item];
+'''
 
 
 def one(ctx, i, rep=None):
@@ -168,7 +175,15 @@ def one(ctx, i, rep=None):
             n['target'] = r.choice(named)['name']
             n['others'] = [r.choice(named)['name'] for _ in range(r.choice([0, 0, 2]))]
     text = pr(root)
-    mm = metamodel_from_str(GRAMMARS[gname], classes=user_classes(variant))
+    classes = user_classes(variant)
+    if classes and i % 3 == 0:
+        # the same user classes were used before by a metamodel of another grammar (other containment attributes)
+        mm0 = metamodel_from_str(PRIME_GRAMMAR, classes=classes)
+        m0 = mm0.model_from_str('model p block b { leaf l block c { leaf k } } leaf z')
+        get_children(lambda x: True, m0)
+        del m0, mm0
+        ctx.count('user_classes_used_by_an_earlier_metamodel')
+    mm = metamodel_from_str(GRAMMARS[gname], classes=classes)
     try:
         m = mm.model_from_str(text)
     except TextXError as e:
